@@ -175,6 +175,21 @@ CLAIMED["C02"] = dict(
          "'partial': the layout theorem is about abstract statement lists whose sizes satisfy part 1, not about that evaluator.",
 )
 
+CLAIMED["C09"] = dict(
+    text="Theorems about the affine arithmetic (Lin: coef*base + const) the executable whole-program model uses for every address: each "
+         "operation commutes with choosing the base; for the relocation fragment of the expression language the numeric value at base b "
+         "is the affine form evaluated at b (induction over expressions); moving the base by D moves a value by coef*D; an absolute address "
+         "word (coef 1) changes by exactly D mod 2^16; a PC-relative displacement and a branch/SOB field to a target inside the program "
+         "are identical at every base, as is their acceptance; hence the relocation law for images (only absolute words differ, each by D) "
+         "and position independence of code without absolute words. Tie: generated programs of that fragment linked at three bases (one "
+         "at the top of the address space; position-independent ones wrapping through 0o177777): word-wise classification of the "
+         "differences, byte identity of the PIC stream, and the whole-program model at every base.",
+    design_ref="DESIGN.md §5 C09",
+    technique="Lean 4 theorems (omega, induction over the relocation fragment) + three-base metamorphic oracle + whole-program model/implementation correspondence",
+    note=NOTE + "The theorems are about Lin and an explicit expression fragment; that the executable evaluator (Model/Asm.lean, partial) computes with "
+         "Lin as stated is by construction (it calls Lin.add/sub/neg/scale/force) and is checked against the code on every run.",
+)
+
 PENDING_REASON = "check not built yet (build in progress; see DESIGN.md §8 for the order)"
 
 
